@@ -51,6 +51,9 @@ P['C07'] = dict(cat='other', tech='finite-model evaluation of guard prefixes ove
 P['C10'] = dict(cat='other', tech='nothing-after path rule on the event-level CFG with effect sets (A3) and may-throw summaries (A4) incl. validated-index, forall-guard and guard-subsumption discharge lemmas',
    text='Partial claim: in every public mutator, the typed setters and Group::parameter no explicit throw and no may-throw call is reachable after the first modification of the object, except the four updater-after-store instances recorded as known findings (K4, replayed). Does not take run-time snapshots.',
    note='Allocation failure excluded; std throwers from a closed table. ' + TB, ref='4/C10')
+P['C05'] = dict(cat='other', tech='must-pass-through path rule with effect sets (updater reachability), finite-model walk of updateHeader against the sync table (A7), structural regeneration rules, type-level who-may-mutate rule',
+   text='Partial claim: every public mutator reaches an updater after its last modification on every normal path; updateHeader copies each source parameter into its header field whenever they differ (6-row sync table on finite models); updateParameters regenerates counts and label-like lists one entry per element; nobody else can mutate; derived header getters/setters are a rescaling triple. Does not decide values for every interleaving.',
+   note='Documented const-bypass accessors are outside the property. ' + TB, ref='4/C05')
 NA = {
  'C19': 'compares compiled artefacts across optimisation levels / link kinds; not decidable from source without running the builds (DESIGN 4/C19)',
 }
